@@ -171,21 +171,29 @@ type igRun struct {
 func runCheck(env *storerun.Env, fix bool) igRun {
 	var r igRun
 	r.err = env.Db.Update(nil, func(ctx boltz.MutateContext) error {
-		for _, st := range env.S.AllStores() {
-			if err := st.CheckIntegrity(ctx, fix, func(err error, fixed bool) {
-				r.reports++
-				if fixed {
-					r.fixed++
-				}
-				if len(r.texts) < 6 {
-					r.texts = append(r.texts, fmt.Sprintf("%v (fixed=%v)", err, fixed))
-				}
-			}); err != nil {
-				return err
-			}
-		}
-		return nil
+		r = runCheckIn(env, ctx, fix)
+		return r.err
 	})
+	return r
+}
+
+// runCheckIn runs the check of every store inside the caller's transaction
+func runCheckIn(env *storerun.Env, ctx boltz.MutateContext, fix bool) igRun {
+	var r igRun
+	for _, st := range env.S.AllStores() {
+		if err := st.CheckIntegrity(ctx, fix, func(err error, fixed bool) {
+			r.reports++
+			if fixed {
+				r.fixed++
+			}
+			if len(r.texts) < 6 {
+				r.texts = append(r.texts, fmt.Sprintf("%v (fixed=%v)", err, fixed))
+			}
+		}); err != nil {
+			r.err = err
+			return r
+		}
+	}
 	return r
 }
 
@@ -238,7 +246,7 @@ func integrityMain(args []string) error {
 			if idx%2 == 1 {
 				table = prefixIds
 			}
-			env, err := storerun.NewEnv(*scratch, schema.Config{BossMode: "idxNull", TeamMode: "off"}, project.NewTokens(table))
+			env, err := storerun.NewEnv(*scratch, schema.Config{BossMode: "idxNull", TeamMode: "off", ChildExtended: idx%4 == 1}, project.NewTokens(table))
 			if err != nil {
 				add("harness", err.Error())
 				return
@@ -283,8 +291,28 @@ func integrityMain(args []string) error {
 			if chk.reports < c.Facts {
 				add("incomplete", fmt.Sprintf("%d inconsistencies, %d reports: %v", c.Facts, chk.reports, chk.texts))
 			}
-			// fix mode
-			fx := runCheck(env, true)
+			// fix mode; on every third case the re-check runs in the transaction that repaired (what a transaction wrote is
+			// what it reads: "an immediate re-check is clean" does not wait for a commit)
+			var fx, reSame igRun
+			sameTx := idx%3 == 0
+			if sameTx {
+				_ = env.Db.Update(nil, func(ctx boltz.MutateContext) error {
+					fx = runCheckIn(env, ctx, true)
+					if fx.err == nil {
+						reSame = runCheckIn(env, ctx, false)
+					}
+					return fx.err
+				})
+				if fx.err == nil && reSame.err != nil {
+					add("recheck-error", reSame.err.Error())
+					return
+				}
+				if fx.err == nil && ((reSame.reports == 0) != (c.Unfixable == 0) || reSame.reports < c.Unfixable) {
+					add("not-convergent", fmt.Sprintf("re-check after fix, in the same transaction: %d reports, %d unfixable conflicts remain: %v", reSame.reports, c.Unfixable, reSame.texts))
+				}
+			} else {
+				fx = runCheck(env, true)
+			}
 			if fx.err != nil {
 				add("fix-error", fx.err.Error())
 				return
